@@ -340,6 +340,7 @@ func main() {
 			"a backlog that is still queued at quiescence is not judged here (that is C04); what was delivered must be a prefix of an admissible concatenation",
 			"no fatal errors are injected in this check (C03 covers close causes)",
 		},
-		Build: build, QuickBudget: 40 * time.Second, ThoroughBudget: 10 * time.Minute, MinNonTrivial: 50,
+		UsesSimulatedKernel: true,
+		Build:               build, QuickBudget: 40 * time.Second, ThoroughBudget: 10 * time.Minute, MinNonTrivial: 50,
 	})
 }
